@@ -7,6 +7,7 @@ import (
 	"sort"
 	"strings"
 	"sync"
+	"sync/atomic"
 	"time"
 
 	"berty.tech/go-orbit-db/iface"
@@ -171,7 +172,37 @@ func lwwRun(c fw.Case, typ string) fw.Verdict {
 		return fw.Verdict{Status: fw.Inconclusive, What: "setup: " + err.Error()}
 	}
 	steps := r.GenSteps(rng)
+	// readers: an application thread queries every replica all the time; a query must never leave anything
+	// behind that changes what later queries answer
+	stopReaders := make(chan struct{})
+	var rwg sync.WaitGroup
+	var reads int64
+	if c.Bool("hold") || c.Idx%3 == 0 {
+		for i := range r.Peers {
+			rwg.Add(1)
+			go func(i int) {
+				defer rwg.Done()
+				for {
+					select {
+					case <-stopReaders:
+						return
+					default:
+					}
+					if r.Peers[i].Running() {
+						if st := r.store(i); st != nil {
+							_ = ViewOf(typ, st)
+							atomic.AddInt64(&reads, 1)
+						}
+					}
+					time.Sleep(50 * time.Microsecond)
+				}
+			}(i)
+		}
+	}
 	r.Exec(steps)
+	close(stopReaders)
+	rwg.Wait()
+	r.V.Count("concurrent_reader_queries", atomic.LoadInt64(&reads))
 	if r.failed == nil && !r.watchdog {
 		ih.set(false)
 		if r.Converge() {
